@@ -2,7 +2,7 @@
 from vt.props import common_spaces as cs
 
 CLAIM = ('Real distance()/equalStates()/getMaximumExtent() code of SO(2), R^n (n<=2), Time and Discrete, for EVERY in-bounds double/int '
-         '(bounds themselves symbolic): non-negative, zero to itself, bitwise symmetric, positive between non-equal states, not above '
+         '(bounds themselves symbolic): non-negative, zero to itself, bitwise symmetric and positive between non-equal states (R^n: thorough tier only), not above '
          'the maximum extent (SO2, Time, Discrete; R^1 attempted), triangle inequality for Discrete (proved) and refutation-only '
          'for float spaces.')
 OUT = ('proofs of the triangle inequality for float spaces (attempted in the thorough tier, reported undecided if so), R^n extent for n>1, '
@@ -14,10 +14,13 @@ def queries(tier):
     qs = [cs.so2('distance', tier, bound='every pair of doubles in [-pi,pi)'),
           cs.rv('distance', tier, 1, bound='dim 1, symbolic bounds, every in-bounds pair'),
           cs.rv('distance', tier, 2, bound='dim 2, symbolic bounds, every in-bounds pair', backends=('cadical', 'kissat')),
-          cs.misc('time_distance', tier, bound='bounded/unbounded, symbolic bounds, every in-bounds pair'),
+          cs.misc('time_distance', tier, bound='bounded/unbounded, symbolic bounds, every in-bounds pair', backends=('cadical', 'kissat')),
           cs.misc('discrete_distance', tier, bound='symbolic bounds in [-1e6,1e6], every in-bounds triple')]
     if tier == 'thorough':
         qs += [cs.so2('triangle', tier, bound='every in-bounds triple', backends=('cadical', 'kissat', 'minisat'), timeout=1800),
                cs.misc('time_triangle', tier, bound='every in-bounds triple', backends=('cadical', 'kissat', 'minisat'), timeout=1800),
+               cs.misc('time_extent', tier, bound='every in-bounds pair', backends=('cadical', 'kissat', 'minisat'), timeout=1800),
+               cs.rv('symmetric', tier, 1, bound='dim 1', backends=('cadical', 'kissat', 'minisat'), timeout=1800),
+               cs.rv('positive', tier, 1, bound='dim 1', backends=('cadical', 'kissat', 'minisat'), timeout=1800),
                cs.rv('extent', tier, 1, bound='dim 1', backends=('cadical', 'kissat', 'minisat'), timeout=1800)]
     return qs
